@@ -258,4 +258,81 @@ example : ((run exCfg (Conn.init exCfg)
     [(.tattach 1 NOFID [] [] 7, okImpl), (.twalk 1 2 [[0x61]], okImpl), (.tclunk 1, okImpl)]).1.fids.map (·.1))
     = [2] := by decide
 
+theorem ret_rel_01 (fs : Fids) (t : Msg) (rep : Reply) (k : UInt32) :
+    postRet fs t rep k ≤ 1 ∧ postRel t rep k ≤ 1 ∧ (postRet fs t rep k = 1 → postRel t rep k = 0) := by
+  unfold postRet postRel
+  cases postKind t rep <;> simp <;> (try split) <;> simp
+
+theorem ite01 (p : Prop) [Decidable p] : (if p then 1 else 0 : Nat) ≤ 1 := by
+  by_cases h : p <;> simp [h]
+
+/-- the arithmetic of one request on one fid number: `r0` references before (0 or 1), `H` holds
+    taken by the request, `ret`/`rel` the reference kept / dropped by the post-handler -/
+theorem destroy_arith (r0 H ret rel : Nat) (h1 : r0 ≤ 1) (b1 : ret ≤ 1) (b2 : rel ≤ 1) (b3 : ret = 1 → rel = 0) :
+    (if rel = 1 ∧ r0 + H = 1 then 1 else 0) + (if 1 ≤ r0 + H + ret - rel ∧ r0 + H + ret - rel ≤ H then 1 else 0) ≤ 1 ∧
+    (1 ≤ r0 → ¬ (1 ≤ r0 + ret - rel) →
+      (if rel = 1 ∧ r0 + H = 1 then 1 else 0) + (if 1 ≤ r0 + H + ret - rel ∧ r0 + H + ret - rel ≤ H then 1 else 0) = 1) ∧
+    ((if rel = 1 ∧ r0 + H = 1 then 1 else 0) + (if 1 ≤ r0 + H + ret - rel ∧ r0 + H + ret - rel ≤ H then 1 else 0) = 1 →
+      ¬ (1 ≤ r0 + ret - rel)) := by
+  by_cases hA : rel = 1 ∧ r0 + H = 1
+  · have hret : ret = 0 := by
+      have : ret = 0 ∨ ret = 1 := by omega
+      rcases this with h | h
+      · exact h
+      · have := b3 h; omega
+    have hB : ¬ (1 ≤ r0 + H + ret - rel ∧ r0 + H + ret - rel ≤ H) := by omega
+    rw [if_pos hA, if_neg hB]
+    refine ⟨by omega, fun _ _ => rfl, fun _ => by omega⟩
+  · rw [if_neg hA]
+    by_cases hB : 1 ≤ r0 + H + ret - rel ∧ r0 + H + ret - rel ≤ H
+    · rw [if_pos hB]
+      refine ⟨by omega, fun _ _ => rfl, fun _ => by omega⟩
+    · rw [if_neg hB]
+      refine ⟨by omega, fun hv hn => ?_, fun hc => by cases hc⟩
+      exfalso
+      apply hB
+      have : ret = 0 ∨ ret = 1 := by omega
+      have : rel = 0 ∨ rel = 1 := by omega
+      omega
+
+/-- FidDestroy, exactly once and on time: in the step of any request, a fid number is reported
+    destroyed at most once; it is reported when the request makes a valid fid invalid; and whatever
+    is reported is invalid afterwards. The report is part of the same step as the reply. -/
+theorem destroyed_exactly_once (cfg : Cfg) (impl : Impl) (c : Conn) (t : Msg) (hwf : WF c.fids) (k : UInt32) :
+    (step cfg impl c t).2.destroyed.count k ≤ 1 ∧
+    (valid c.fids k = true → valid (step cfg impl c t).1.fids k = false → (step cfg impl c t).2.destroyed.count k = 1) ∧
+    ((step cfg impl c t).2.destroyed.count k = 1 → valid (step cfg impl c t).1.fids k = false) := by
+  obtain ⟨hp, hr⟩ := pre_refs cfg impl c t hwf.pos
+  have h1 := hwf.one k
+  have hfin := (step_refOf cfg impl c t hwf.pos k).2
+  rw [step_destroyed, List.count_append]
+  unfold valid
+  rw [hfin]
+  unfold stepPost
+  by_cases he : (pre cfg impl c t).held.isEmpty = true
+  · have hnil : (pre cfg impl c t).held = [] := by simpa using he
+    simp only [he, if_true, List.count_nil, Nat.zero_add]
+    rw [count_destroyed_decRefs _ _ _ hp, hr k]
+    have hH : (pre cfg impl c t).held.count k = 0 := by rw [hnil]; rfl
+    have hB : ¬ (1 ≤ refOf c.fids k + (pre cfg impl c t).held.count k ∧
+        refOf c.fids k + (pre cfg impl c t).held.count k ≤ (pre cfg impl c t).held.count k) := by omega
+    rw [if_neg hB]
+    refine ⟨by omega, ?_, fun hc => by cases hc⟩
+    intro hv hn; simp at hv hn; omega
+  · have he' : (pre cfg impl c t).held.isEmpty = false := by simpa using he
+    simp only [he', Bool.false_eq_true, if_false]
+    obtain ⟨hp2, hr2, hd2⟩ := post_refs (pre cfg impl c t).c t (stepRep cfg impl c t) hp
+    rw [hd2 k, count_destroyed_decRefs _ _ _ hp2, hr2 k, hr k]
+    obtain ⟨b1, b2, b3⟩ := ret_rel_01 (pre cfg impl c t).c.fids t (stepRep cfg impl c t) k
+    obtain ⟨a1, a2, a3⟩ := destroy_arith (refOf c.fids k) ((pre cfg impl c t).held.count k)
+      (postRet (pre cfg impl c t).c.fids t (stepRep cfg impl c t) k) (postRel t (stepRep cfg impl c t) k) h1 b1 b2 b3
+    refine ⟨a1, ?_, ?_⟩
+    · intro hv hn
+      simp only [decide_eq_true_eq, decide_eq_false_iff_not] at hv hn
+      exact a2 hv hn
+    · intro hc
+      simp only [decide_eq_false_iff_not]
+      exact a3 hc
+
+
 end G9.C04
